@@ -465,8 +465,20 @@ def ref_client():
 
 
 # ---------------------------------------------------------------- comparison
-def _cmp_goal(w, r):
-    """w, r: step results of a goal.  returns (verdict, detail): verdict in ok / diff / inconclusive"""
+NUMERIC_TOL = 1e-6
+
+
+def _numeric(sess):
+    o = sess.get("options") or {}
+    argv = sess.get("argv") or []
+    return bool(o.get("numeric_roots") or o.get("numeric_croots") or "--numeric_roots" in argv or "--numeric_croots" in argv)
+
+
+def _cmp_goal(w, r, numeric=False):
+    """w, r: step results of a goal.  returns (verdict, detail): verdict in ok / diff / inconclusive.
+    numeric: the session runs under numeric-root options - its results are rounded within the requested precision, and
+    which recurrence system a monomial is solved in (hence the rounding) legitimately depends on the goals asked before;
+    values are then compared with a tolerance and the exactness flag is not compared."""
     if w["status"] in ("timeout", "skipped") or r["status"] in ("timeout", "skipped"):
         return "inconclusive", None
     if w["status"] != r["status"]:
@@ -476,10 +488,10 @@ def _cmp_goal(w, r):
             return "diff", {"what": "error-type", "world": w["etype"], "alone": r["etype"]}
         return "ok", None
     wd, rd = w["data"], r["data"]
-    e = canon.compare_closed_forms(wd["cf"], rd["cf"])
+    e = canon.compare_closed_forms(wd["cf"], rd["cf"], NUMERIC_TOL if numeric else 1e-25)
     if e is False:
         return "diff", {"what": "closed-form", "world": wd["cf"]["vals"][0][:6], "alone": rd["cf"]["vals"][0][:6]}
-    if wd.get("exact") is not None and rd.get("exact") is not None and wd["exact"] != rd["exact"]:
+    if not numeric and wd.get("exact") is not None and rd.get("exact") is not None and wd["exact"] != rd["exact"]:
         return "diff", {"what": "is_exact", "world": wd["exact"], "alone": rd["exact"]}
     return ("ok" if e else "inconclusive"), None
 
@@ -575,7 +587,7 @@ def judge(history, wres, refget):
                 if r.get("status") != "done" or "goal:0" not in r["steps"]:
                     verdict = "inconclusive"
                 else:
-                    verdict, detail = _cmp_goal(w, r["steps"]["goal:0"])
+                    verdict, detail = _cmp_goal(w, r["steps"]["goal:0"], _numeric(sess))
             elif step == "invariants":
                 r = refget(units["invariants"])
                 if r.get("status") != "done" or "invariants" not in r["steps"]:
